@@ -9,10 +9,13 @@ import random as _pyrandom
 
 from .core import HarnessError
 
-KEY_KINDS = ('int', 'str', 'tuple', 'fd', 'negint')
+KEY_KINDS = ('int', 'str', 'tuple', 'fd', 'negint', 'int0')
 
 
 def skey(kind, i):
+    if kind == 'int0':
+        # ints again, but the action ids start at 0: the first action is a falsy key
+        return 10 + i
     if kind == 'negint':
         # negative ints: in CPython hash(-1) == hash(-2), two unequal keys with one hash
         return -(0 + i + 1)
@@ -35,6 +38,9 @@ def skey(kind, i):
 
 
 def akey(kind, i):
+    if kind == 'int0':
+        # ints again, but the action ids start at 0: the first action is a falsy key
+        return i
     if kind == 'negint':
         # negative ints: in CPython hash(-1) == hash(-2), two unequal keys with one hash
         return -(100 + i + 1)
@@ -57,6 +63,9 @@ def akey(kind, i):
 
 
 def okey(kind, i):
+    if kind == 'int0':
+        # ints again, but the action ids start at 0: the first action is a falsy key
+        return 200 + i
     if kind == 'negint':
         # negative ints: in CPython hash(-1) == hash(-2), two unequal keys with one hash
         return -(200 + i + 1)
@@ -409,7 +418,20 @@ def make_pomdp(view, ctx=None):
 
 
 # ------------------------------------------------------------------ graph spec
-def gen_graph_spec(rng, kinds=KEY_KINDS, max_states=8, big=False):
+def gen_graph_spec(rng, kinds=KEY_KINDS, max_states=8, big=False, corridor=False):
+    if corridor:
+        # a long corridor: the only route to the goal has more than a thousand steps (plus self-loops, zero-cost back edges
+        # and a few dead-end side branches)
+        n = rng.randint(1050, 1400)
+        edges = []
+        for s in range(n - 1):
+            edges.append([s, 0, s + 1, rng.choice((1, 1, 2))])
+            if rng.random() < 0.1:
+                edges.append([s, 1, max(0, s - rng.randint(1, 5)), 0])
+            elif rng.random() < 0.1:
+                edges.append([s, 1, s, 1])
+        edges.append([n - 1, 0, n - 1, 0])
+        return dict(kind=rng.choice(kinds), n=n, nA=2, goals=[n - 1], edges=edges, src=0)
     if big:
         # larger, denser graphs with a wider cost range: many queued nodes get revised by cheaper routes
         n = rng.randint(15, 60)
@@ -488,22 +510,29 @@ def make_graph_mdp(view, rep):
 
 
 def sibling_mdp_spec(spec, rng_int):
-    """Fault F5 (object reuse): a sibling problem with the same state and action keys
-    but one more absorbing state ("the goal moved"); proper-ness is preserved.
-    Returns None when every state is already absorbing."""
+    """Fault F5 (object reuse): a sibling problem with the same state and action keys.
+    Depending on rng_int it has one more absorbing state ("the goal moved"), another
+    discount rate, or both; proper-ness is preserved.  Returns None when every state is
+    already absorbing and the discount cannot be changed."""
     import copy
     absb = set(spec['absorbing'])
     N = spec.get('N', spec['n'] + len(spec['absorbing']))
     cand = [s for s in range(N) if s not in absb]
-    if not cand:
-        return None
-    x = cand[rng_int % len(cand)]
+    mode = (rng_int // 2) % 3          # (rng_int % 2 selects sibling vs aborted rerun in the checks)
     sp = copy.deepcopy(spec)
-    sp['absorbing'] = sorted(absb | {x})
     sp['N'] = N
-    # like every absorbing state of the generated workloads, x only loops on itself
-    # (msdm's matrix views index the successors of absorbing states too)
-    for tr in sp['trans']:
-        if tr[0] == x:
-            tr[2] = [[x, 8, 0.0]]
+    changed = False
+    if mode in (0, 2) and cand:
+        x = cand[rng_int % len(cand)]
+        sp['absorbing'] = sorted(absb | {x})
+        # like every absorbing state of the generated workloads, x only loops on itself
+        # (msdm's matrix views index the successors of absorbing states too)
+        for tr in sp['trans']:
+            if tr[0] == x:
+                tr[2] = [[x, 8, 0.0]]
+        changed = True
+    if mode in (1, 2) or not changed:
+        others = [g for g in (0.5, 0.8, 0.9, 0.95) if g != spec['gamma']]
+        sp['gamma'] = others[rng_int % len(others)]
+        changed = True
     return sp
